@@ -55,7 +55,9 @@ theorem readlinkClean_eq (fs : Bytes → FsEnt) (t : Bytes) :
     rw [he, hq, stripDeleted_append]
     simp only [if_true, existsStrict]
     have hd : deleted.length = 10 := rfl
-    cases hfs : fs (q ++ deleted) <;> simp [hd]
+    cases hfs : fs (q ++ deleted) with
+    | unstatable en cls => cases cls <;> simp [hd, statFailure, named, escapeOf, OsCls.all]
+    | _ => simp [hd, statFailure, named, escapeOf, OsCls.all]
   · have hn : stripDeleted (t.takeWhile (· != 0)) = none :=
       stripDeleted_none _ (fun h => he ((endsWith_iff _ _).2 h))
     have he' : endsWith deleted (t.takeWhile (· != 0)) = false := by
